@@ -708,21 +708,38 @@ func (ex *Exec) next(instr *ssa.Next, it Val) Val {
 	switch it := it.(type) {
 	case *mapIter:
 		// entries deleted during iteration are skipped
+		stillPresent := func(i int) bool {
+			// fast path: nothing was deleted before position i, the entry sits where it was
+			if i < len(it.m.Entries) && ex.equal(it.m.Entries[i].K, it.entries[i].K).IsTrue() {
+				it.entries[i].V = it.m.Entries[i].V
+				return true
+			}
+			for j := range it.m.Entries {
+				if ex.equal(it.m.Entries[j].K, it.entries[i].K).IsTrue() {
+					it.entries[i].V = it.m.Entries[j].V
+					return true
+				}
+			}
+			return false
+		}
+		if !ex.eng.Cfg.MapOrderAny {
+			// fixed (insertion) order: only the next candidate has to be looked at
+			for it.pos < len(it.entries) {
+				i := it.pos
+				it.pos++
+				it.visited[i] = true
+				if stillPresent(i) {
+					return Tuple{True, copyVal(it.entries[i].K), copyVal(it.entries[i].V)}
+				}
+			}
+			return Tuple{False, nil, nil}
+		}
 		var remaining []int
 		for i := range it.entries {
 			if it.visited[i] {
 				continue
 			}
-			// still present?
-			present := false
-			for j := range it.m.Entries {
-				if ex.equal(it.m.Entries[j].K, it.entries[i].K).IsTrue() {
-					present = true
-					it.entries[i].V = it.m.Entries[j].V
-					break
-				}
-			}
-			if present {
+			if stillPresent(i) {
 				remaining = append(remaining, i)
 			} else {
 				it.visited[i] = true
@@ -885,6 +902,11 @@ func (ex *Exec) callBuiltin(caller *frame, fn *ssa.Builtin, args []Val) Val {
 		case *MapV:
 			if x != nil {
 				x.Entries = nil
+			}
+			return nil
+		case SliceV:
+			for i := range x.A {
+				x.A[i] = zeroLike(x.A[i])
 			}
 			return nil
 		}
